@@ -88,6 +88,17 @@ Fixpoint g_map2 (f : num A -> num A -> num A) (u v : list (num A)) : list (num A
   match u, v with x :: u', y :: v' => f x y :: g_map2 f u' v' | _, _ => [] end.
 Definition g_fold_min (l : list (num A)) : num A := match l with [] => ofZ 0 | x :: r => fold_left g_min r x end.
 Definition g_fold_max (l : list (num A)) : num A := match l with [] => ofZ 0 | x :: r => fold_left g_max r x end.
+(* np.searchsorted(a, z, side="right") on a SORTED array a: the number of entries <= z *)
+Definition g_searchsorted_right (a : list (num A)) (z : num A) : Z := Z.of_nat (List.length (List.filter (fun x => leb x z) a)).
+(* np.argmin / np.argmax of a 1-D array: position of the FIRST minimum / maximum *)
+Fixpoint g_argmin_from (l : list (num A)) (i best_i : Z) (best : num A) : Z :=
+  match l with [] => best_i | x :: r => if ltb x best then g_argmin_from r (Z.add i 1%Z) i x else g_argmin_from r (Z.add i 1%Z) best_i best end.
+Definition g_argmin (l : list (num A)) : Z := match l with [] => 0%Z | x :: r => g_argmin_from r 1%Z 0%Z x end.
+Fixpoint g_argmax_from (l : list (num A)) (i best_i : Z) (best : num A) : Z :=
+  match l with [] => best_i | x :: r => if ltb best x then g_argmax_from r (Z.add i 1%Z) i x else g_argmax_from r (Z.add i 1%Z) best_i best end.
+Definition g_argmax (l : list (num A)) : Z := match l with [] => 0%Z | x :: r => g_argmax_from r 1%Z 0%Z x end.
+(* np.clip(x, lo, hi) = minimum(maximum(x, lo), hi) *)
+Definition g_clip (x lo hi : num A) : num A := g_min (g_max x lo) hi.
 """
 
 
@@ -106,6 +117,8 @@ class Fn:
 
     def arith(self, op, a, b):
         (ea, ta), (eb, tb) = a, b
+        if isinstance(op, ast.FloorDiv) and ta == INT and tb == INT:
+            return f"(Z.div {ea} {eb})", INT   # Python's floor division of ints (a zero divisor raises in Python: not modelled)
         sym = {ast.Add: "add", ast.Sub: "sub", ast.Mult: "mul", ast.Div: "div"}.get(type(op))
         if sym is None:
             raise Unsupported(f"operator {type(op).__name__}")
@@ -178,6 +191,13 @@ class Fn:
             return self.arith(n.op, self.ev(n.left, env), self.ev(n.right, env))
         if isinstance(n, ast.Compare) and len(n.ops) == 1:
             return self.cmp(n.ops[0], self.ev(n.left, env), self.ev(n.comparators[0], env))
+        if isinstance(n, ast.UnaryOp) and isinstance(n.op, ast.USub):
+            e, t = self.ev(n.operand, env)
+            if t == INT:
+                return f"(Z.opp {e})", INT
+            if t == NUM:
+                return f"(sub (@ofZ A 0%Z) {e})", NUM
+            raise Unsupported(f"unary minus on {t}")
         if isinstance(n, ast.IfExp):
             c = self.ev(n.test, env)
             a, b = self.ev(n.body, env), self.ev(n.orelse, env)
@@ -189,12 +209,24 @@ class Fn:
             return "(" + ", ".join(p[0] for p in parts) + ")", tup(*[p[1] for p in parts])
         if isinstance(n, ast.Attribute):
             src = ast.unparse(n)
+            if src == "np.nan":
+                return "(div (@ofZ A 0%Z) (@ofZ A 0%Z))", NUM
             if src == "sys.float_info.min":
                 return f"(div (@ofZ A 1%Z) (@ofZ A {zlit(2**1022)}))", NUM
             raise Unsupported(f"attribute {src}")
         if isinstance(n, ast.Subscript):
             src = ast.unparse(n)
+            if isinstance(n.value, ast.Name) and n.value.id == "kwargs" and isinstance(n.slice, ast.Constant) and isinstance(n.slice.value, str):
+                k = "kwargs:" + n.slice.value
+                if k not in env:
+                    raise Unsupported(f"undeclared keyword {n.slice.value}")
+                return env[k]
             base = self.ev(n.value, env) if not isinstance(n.value, ast.Attribute) else None
+            if base and base[1] == vec(NUM) and not isinstance(n.slice, (ast.Constant, ast.Slice, ast.Tuple)):
+                i = self.ev(n.slice, env)
+                if i[1] != INT:
+                    raise Unsupported("index is not an int")
+                return f"(nth (Z.to_nat {i[0]}) {base[0]} (@ofZ A 0%Z))", NUM
             if isinstance(n.value, ast.Attribute) and n.value.attr == "shape" and ast.unparse(n.slice) == "0":
                 b = self.ev(n.value.value, env)
                 if not (isinstance(b[1], tuple) and b[1][0] == "vec"):
@@ -318,6 +350,18 @@ class Fn:
             if a[1] == NUM and b[1] == NUM:
                 return f"(g_{f[3:]} {a[0]} {b[0]})", NUM
             raise Unsupported(f"{f} of {a[1]}, {b[1]}")
+        if f == "np.concatenate" and len(n.args) == 1 and isinstance(n.args[0], ast.List) and len(n.args[0].elts) == 2 and not kw:
+            a, b = (self.ev(e, env) for e in n.args[0].elts)
+            if a[1] == vec(NUM) and b[1] == vec(NUM):
+                return f"({a[0]} ++ {b[0]})", vec(NUM)
+            raise Unsupported(f"np.concatenate of {a[1]}, {b[1]}")
+        if f == "StatisticalResult" and not n.args and sorted(kw) == ["p_value", "statistic"]:
+            a, b = self.ev(kw["statistic"], env), self.ev(kw["p_value"], env)
+            return f"({a[0]}, {b[0]})", tup(a[1], b[1])   # the named tuple (statistic, p_value)
+        if f == "int" and len(n.args) == 1 and isinstance(n.args[0], ast.Call) and ast.unparse(n.args[0].func) == "np.round" and len(n.args[0].args) == 1 and not kw:
+            e, t = self.ev(n.args[0].args[0], env)
+            self.tr.used_oracles["o_round_int"] = "num A -> Z"   # int(np.round(x)): round half to even, as an integer
+            return f"(o_round_int {self.coerce(e, t, NUM)})", INT
         if f == "np.hstack" and len(n.args) == 1 and isinstance(n.args[0], ast.Tuple) and len(n.args[0].elts) == 2 and not kw:
             a, b = (self.ev(e, env) for e in n.args[0].elts)
             if a[1] == vec(NUM) and b[1] == vec(NUM):
@@ -345,6 +389,19 @@ class Fn:
             return f"(g_fold_{f[3:]} {args[0][0]})", NUM
         if f == "np.minimum" and len(args) == 2 and args[0][1] == vec(NUM) and args[1][1] == vec(NUM) and not kw:
             return f"(g_map2 g_min {args[0][0]} {args[1][0]})", vec(NUM)
+        if f == "np.searchsorted" and len(args) == 2 and list(kw) == ["side"] and isinstance(kw["side"], ast.Constant) and kw["side"].value == "right" and args[0][1] == vec(NUM):
+            if args[1][1] == vec(NUM):
+                return f"(map (g_searchsorted_right {args[0][0]}) {args[1][0]})", vec(INT)
+            if args[1][1] == NUM:
+                return f"(g_searchsorted_right {args[0][0]} {args[1][0]})", INT
+        if f in ("np.argmin", "np.argmax") and len(args) == 1 and args[0][1] == vec(NUM) and not kw:
+            return f"(g_{f[3:]} {args[0][0]})", INT
+        if f == "np.clip" and len(args) == 3 and all(a[1] in (NUM, INT) for a in args) and not kw:
+            return "(g_clip " + " ".join(self.coerce(a[0], a[1], NUM) for a in args) + ")", NUM
+        if f == "float" and len(args) == 1 and args[0][1] in (INT, NUM) and not kw:
+            return self.coerce(args[0][0], args[0][1], NUM), NUM
+        if f == "max" and len(args) == 2 and args[0][1] == INT and args[1][1] == INT and not kw:
+            return f"(Z.max {args[0][0]} {args[1][0]})", INT
         if f in ("np.sqrt", "np.log") and len(args) == 1 and not kw:
             prim = {"np.sqrt": "sqrt", "np.log": "ln"}[f]
             if args[0][1] == vec(NUM):
@@ -378,6 +435,47 @@ class Fn:
                 if i != len(stmts) - 1 or st.value is None:
                     raise Unsupported("return not in final position")
                 return self.ev(st.value, env)
+            # if c: ...; return e      <rest>       ==>   if c then e else <rest>
+            if isinstance(st, ast.If) and not st.orelse and st.body and isinstance(st.body[-1], ast.Return):
+                c = self.ev(st.test, env)
+                if c[1] != BOOL:
+                    raise Unsupported("condition is not a bool")
+                lb, lr = [], []
+                rb = self.run(st.body, dict(env), lb)
+                rr = self.run(stmts[i + 1:], dict(env), lr)
+                if rb is None or rr is None:
+                    raise Unsupported("early return without a final return")
+                t = rb[1] if rb[1] == rr[1] else (NUM if {rb[1], rr[1]} == {NUM, INT} else None)
+                if t is None:
+                    raise Unsupported(f"early return of {rb[1]} vs {rr[1]}")
+                return f"(if {c[0]} then {' '.join(lb)} {self.coerce(rb[0], rb[1], t)} else {' '.join(lr)} {self.coerce(rr[0], rr[1], t)})", t
+            # with np.errstate(...): the block itself (the error state only decides whether the library calls inside raise,
+            # which is part of what a `may_raise` oracle stands for)
+            if isinstance(st, ast.With) and len(st.items) == 1 and ast.unparse(st.items[0].context_expr).startswith("np.errstate(") and st.items[0].optional_vars is None:
+                r = self.run(st.body + stmts[i + 1:], env, lines)
+                return r
+            # try: <name = expression over may_raise oracles>  except (..): return h      <rest>
+            #   ==>  match <expression> with None => h | Some name => <rest> end     (None: the library call raised)
+            if isinstance(st, ast.Try) and not st.orelse and not st.finalbody and len(st.handlers) == 1 and len(st.handlers[0].body) == 1 and isinstance(st.handlers[0].body[0], ast.Return):
+                hexc = ast.unparse(st.handlers[0].type) if st.handlers[0].type is not None else ""
+                if hexc != "(FloatingPointError, OverflowError)":
+                    raise Unsupported(f"except clause {hexc}")
+                body = st.body
+                while len(body) == 1 and isinstance(body[0], ast.With) and ast.unparse(body[0].items[0].context_expr).startswith("np.errstate("):
+                    body = body[0].body
+                if not (len(body) == 1 and isinstance(body[0], ast.Assign) and len(body[0].targets) == 1 and isinstance(body[0].targets[0], ast.Name)):
+                    raise Unsupported("try body is not a single assignment")
+                nm = body[0].targets[0].id
+                e, t = self.ev(body[0].value, env)
+                if t != opt(NUM):
+                    raise Unsupported("try body does not call a library function declared may_raise")
+                h = self.ev(st.handlers[0].body[0].value, env)
+                env2, lr = dict(env), []
+                env2[nm] = (nm + "_", NUM)
+                rr = self.run(stmts[i + 1:], env2, lr)
+                if rr is None or h[1] != rr[1]:
+                    raise Unsupported("try: handler and continuation return different types")
+                return f"(match {e} with None => {h[0]} | Some {nm}_ => {' '.join(lr)} {rr[0]} end)", rr[1]
             if isinstance(st, ast.Assign) and len(st.targets) == 1 and isinstance(st.targets[0], ast.Name):
                 e, t = self.ev(st.value, env)
                 nm = st.targets[0].id
@@ -469,14 +567,16 @@ class Fn:
         argnames = [a.arg for a in self.fn.args.args] + [a.arg for a in self.fn.args.kwonlyargs]
         if self.fn.args.vararg or [a for a in argnames if a not in u["params"]] or [p for p in u["params"] if p not in argnames]:
             raise Unsupported(f"parameters {argnames} differ from the declared {list(u['params'])}")
-        if self.fn.args.kwarg is not None and not u.get("ignore_kwargs"):
+        if self.fn.args.kwarg is not None and not u.get("ignore_kwargs") and "kwargs" not in u:
             raise Unsupported("**kwargs")
         env = {p: (p + "_", t) for p, t in u["params"].items()}
+        for k, t in u.get("kwargs", {}).items():   # keys the function reads from **kwargs: further parameters kw_<key>
+            env["kwargs:" + k] = ("kw_" + k + "_", t)
         lines = []
         r = self.run(self.fn.body, env, lines)
         if r is None:
             raise Unsupported("no final return")
-        sig = " ".join(f"({p}_ : {cty(t)})" for p, t in u["params"].items())
+        sig = " ".join([f"({p}_ : {cty(t)})" for p, t in u["params"].items()] + [f"(kw_{k}_ : {cty(t)})" for k, t in u.get("kwargs", {}).items()])
         poly = any(self._has_opq(t) for t in u["params"].values())
         text = f"Definition {u['name']}{' (T : Type)' if poly else ''} {sig} : {cty(r[1])} :=\n  " + "\n  ".join(lines) + ("\n  " if lines else "") + r[0] + "."
         pos = [a.arg for a in self.fn.args.args]
